@@ -418,6 +418,22 @@ struct T16 {
                     for (int i = 0; i < 2; ++i) mp[2 + i] = e.coeffs()(i);
                     L::template get<I>(m).so2() = e;
                     chained = true;
+                  } else if constexpr (requires { pv.template part<0>(); }) {
+                    // member that is itself a Bundle: m.part<i>().part<0>() = value
+                    using Inner = LiePlain<PV>;
+                    using P0 = typename Inner::template PartType<0>;
+                    constexpr int l0 = rep_of<P0>();
+                    allow(c, off, off + l0, true);
+                    if constexpr (is_lie<P0>) {
+                      const P0 e = rand_elem<P0>(in);
+                      for (int i = 0; i < l0; ++i) mp[i] = e.coeffs()(i);
+                      L::template get<I>(m).template part<0>() = e;
+                    } else {
+                      const P0 e = rand_vec<S, l0>(in, 2.0);
+                      for (int i = 0; i < l0; ++i) mp[i] = e(i);
+                      L::template get<I>(m).template part<0>() = e;
+                    }
+                    chained = true;
                   }
                 }
               });
